@@ -5,7 +5,7 @@ from . import numgen
 
 MANIFEST = dict(
    technique="Lean 4 proof (soundness of the transcribed ToInt64/ToInteger[T]/ToFloat64/ToFloat[T]/ToBool/ToBigInt/To[T] and of the coercing-schema pipeline over all of Int and all dyadic floats) + translator (go/ast over pkg/coerce, coerce, types -> Gen/CoerceDispatch.lean, regenerated on every run; every type switch, guard, range constant and routing of the model is proved equal to the interpreted table for every source) + Lean functions for strings.TrimSpace, strconv.ParseInt/ParseUint/FormatInt and big.Int.SetString with soundness, completeness and round-trip theorems (integer text is inside the model, not a parameter) + differential correspondence of that model against pkg/coerce, the gozod/coerce schemas and the real strconv/strings/math/big functions, judged by a math/big oracle",
-   text="Theorems c17_int64_sound / c17_integer_sound (all ten integer targets) / c17_bigint_sound prove that a successful coercion returns exactly the value the source denotes and lands in the target's range; c17_int64_err / c17_integer_err prove that NaN, infinite, fractional, out-of-range and negative-to-unsigned sources are errors; c17_int_to_f64_nearest / c17_int_to_f64_exact / c17_f32_no_inf / c17_float64_finite cover float targets (correctly rounded, exact below 2^53, a finite source never becomes Inf); c17_float32_sound / c17_string_sound / c17_bool_table the float32, string and bool targets; C17P.parseInt_sound / parseInt_complete / parseInt_formatInt (ParseInt(FormatInt n) = n for every int64) and C17T.c17_int64_text_sound / c17_integer_text_sound / c17_text_roundtrip_i64 make integer text sources assumption-free; c17_schema / c17_schema_exact_first / c17_schema_sound the schema pipeline, composed with the exactness of the check for integer (c17_schema_check_exact) and float (C17S.c17_schema_check_exact_float) schemas; BigInt schema bounds go through float64 (C17S.c17_bigint_check_partial + bigint_check_witness). The model is tied to /repo by translation (C17D.*_table: ToInt64/ToFloat64/ToBool/ToString/ToBigInt/ToInteger/toFloat32 switches, floatToInt64 and checkIntegerTypeBounds constants, To[T] and schema routing, truthy words, case_types_known: a new source type or a re-routed clause is a failed obligation) and by running both on exhaustive 8-bit (thorough: 16-bit) sources and a boundary grid over every (source kind, target) pair, through every helper and through coercing schemas with a check.",
+   text="Theorems c17_int64_sound / c17_integer_sound (all ten integer targets) / c17_bigint_sound prove that a successful coercion returns exactly the value the source denotes and lands in the target's range; c17_int64_err / c17_integer_err prove that NaN, infinite, fractional, out-of-range and negative-to-unsigned sources are errors; c17_int_to_f64_nearest / c17_int_to_f64_exact / c17_f32_no_inf / c17_float64_finite cover float targets (correctly rounded, exact below 2^53, a finite source never becomes Inf); c17_float32_sound / c17_string_sound / c17_bool_table the float32, string and bool targets; C17P.parseInt_sound / parseInt_complete / parseInt_formatInt (ParseInt(FormatInt n) = n for every int64) and C17T.c17_int64_text_sound / c17_integer_text_sound / c17_text_roundtrip_i64 make integer text sources assumption-free; c17_schema / c17_schema_exact_first / c17_schema_sound the schema pipeline, composed with the exactness of the check for integer (c17_schema_check_exact) and float (C17S.c17_schema_check_exact_float) schemas; BigInt schemas (C17S.c17_bigint_check_exact; the float64 comparison of the code before 4945548 is kept as legacy_bigint_check_witness). The model is tied to /repo by translation (C17D.*_table: ToInt64/ToFloat64/ToBool/ToString/ToBigInt/ToInteger/toFloat32 switches, floatToInt64 and checkIntegerTypeBounds constants, To[T] and schema routing, truthy words, case_types_known: a new source type or a re-routed clause is a failed obligation) and by running both on exhaustive 8-bit (thorough: 16-bit) sources and a boundary grid over every (source kind, target) pair, through every helper and through coercing schemas with a check.",
    note="Trusted: Lean kernel; axioms propext/Classical.choice/Quot.sound only; the Go harness, its math/big oracle and the comparer; strconv.ParseFloat/FormatFloat and strings.ToLower enter the model as parameters whose results the harness ships with each case (their correctness is assumed, cross-checked against math/big on the generated cases only); strings.TrimSpace, strconv.ParseInt/ParseUint/FormatInt, big.Int.SetString are Lean functions (Model/ParseInt.lean) proved against an independent positional denotation and driven against the real functions on boundary-directed texts (P/F lines). amd64 semantics of int64(float). Primitives (int64(f), float32(f), big.Int.Float64) and five raw clauses are validated on generated cases, not for all inputs; the translator harness/numgen is trusted. ToFloat64 of a complex source returns the magnitude (open known finding complex-magnitude, witness theorem complex_magnitude_witness). Time and []byte sources and complex/time targets are outside the property and not modelled. Spurious failures (e.g. uint64 values above MaxInt64, +Inf into float32) are allowed by the statement and only counted.",
    design="DESIGN.md §5 C17, §3.6; notes/C17.md")
 
@@ -38,9 +38,9 @@ THEOREMS = [
     "Gozod.C17T.c17_integer_text_sound", "Gozod.C17T.c17_string_int_sound", "Gozod.C17T.c17_text_roundtrip_i64",
     "Gozod.C17T.c17_text_roundtrip_big", "Gozod.C17T.c17_bigint_text_sound", "Gozod.C17T.sign_after_prefix_witness",
     "Gozod.C17T.c17_float32_sound", "Gozod.C17T.c17_string_sound",
-    # third sentence composed with what the validation is: float schemas (exact), BigInt schemas (through float64: partial + witness)
+    # third sentence composed with what the validation is: float schemas (exact), BigInt schemas (exact since 4945548; legacy witness)
     "Gozod.C17S.c17_schema_check_exact_float", "Gozod.C17S.c17_schema_float_sound", "Gozod.C17S.bigToF64_exact",
-    "Gozod.C17S.c17_bigint_check_partial", "Gozod.C17S.bigint_check_witness", "Gozod.C17S.bigint_check_witness_huge",
+    "Gozod.C17S.c17_bigint_check_exact", "Gozod.C17S.legacy_bigint_check_partial", "Gozod.C17S.legacy_bigint_check_witness",
 ]
 
 def _src(t, i):
